@@ -62,6 +62,8 @@ class C01(Prop):
             names = names + extra[:1]
         data = lang.gen_trace(rng, names, n)
         case = {'formula': f, 'data': data, 'kind': rng.choice(['dt', 'dt', 'dt_off'])}
+        if rng.random() < 0.1:
+            case['useed'] = rng.randrange(1 << 30)
         if rng.random() < 0.25:
             # the same specification object evaluated again on other traces (other values, other lengths)
             case['more'] = [lang.gen_trace(rng, names, rng.choice([1, 2, 3, n, n + 3, 9]))
@@ -74,6 +76,10 @@ class C01(Prop):
         names = sorted(data)
         n = len(data[names[0]])
         text = lang.to_text(f)
+        if case.get('useed') is not None:
+            import random
+            text = lang.unit_text(f, random.Random(case['useed']))       # same durations, unit-suffix notation
+            v.info['class:unit-suffixes'] = 1
         try:
             exp = ref.evaluate(f, data, n)
         except ref.Undefined:
